@@ -160,7 +160,7 @@ func zzConfine(kind int) {
 	L := nd.Param("L", 4)
 	p := nd.StringUpTo("p", L)
 	segs, _ := reftree.Norm(p)
-	op := nd.Choose("op", 13)
+	op := nd.Choose("op", 14)
 	switch op {
 	case 0:
 		d, err := view.ReadFile(p)
@@ -213,6 +213,28 @@ func zzConfine(kind int) {
 			w.Close()
 		}
 		nd.Assert(zzOutsideIntact(parent), "C03/"+name+"/writer-escapes")
+	case 13:
+		// a view of the view obtained with the path under test: nothing
+		// outside the original view's root may be reachable through it
+		sub, err := view.Filespace(p)
+		if err == nil {
+			for _, q := range []string{"g", "o/y", "y", "in/x"} {
+				d, err := sub.ReadFile(q)
+				if err == nil {
+					nd.Assert(!bytes.Equal(d, zzMarker), "C03/"+name+"/subview-read-escapes")
+				}
+			}
+			infos, err := sub.ReadDir(".")
+			if err == nil {
+				for _, inf := range infos {
+					nd.Assert(nd.Not(zzOutsideName(inf.Name())), "C03/"+name+"/subview-list-escapes")
+				}
+			}
+			sub.WriteFile("g", []byte("w"), filesystem.DefaultUnixFileMode)
+			sub.WriteFile("n", []byte("w"), filesystem.DefaultUnixFileMode)
+			sub.RemoveAll("o")
+			nd.Assert(zzOutsideIntact(parent), "C03/"+name+"/subview-write-escapes")
+		}
 	case 10, 11, 12:
 		// copies: the escaping argument is either the source (p) or the
 		// destination (q); the other one is a fixed inside path
